@@ -563,7 +563,7 @@ def c14_text(t, dump, tier):
             m = M.call(PARSER + '.VerifVisit', [snap.tree])
             if syntax_errors(M, m):
                 return res, stats
-            cells = reachable_cells(M, m)
+            cells = reachable_cells(M, [m] + [g for name, g in sorted(M.globals.items()) if not name.endswith('init$guard')])
             before = snapshot_values(cells)
             r = M.call(PARSER + '.VerifGenerate', [go_str(g), m])
             alone[g] = filemap_to_py(M, r[0])
